@@ -141,7 +141,7 @@ def check_generic_hex(ctx, cfg):
         up = c.targs[-1] if c.targs else None
         fwd = up is not None and up.get("k") == "cparam"
         ctx.ob("C14.H6", "%s#%s#%d#case" % (key, c.key, i), fwd, "the UPPER const parameter is forwarded to the encoder: %s" % (tstr(up) if up else None), at=c.at, cfg=cfg)
-    ctx.floor("C14.H5", "encoder call sites in generic_hex (%s)" % cfg, len(encs), 3)
+    ctx.floor("C14.H5", "encoder call sites in generic_hex (%s)" % cfg, len(encs), 1)
     ctx.sample({"rule": "C14", "cfg": cfg, "max_digits": repr(md), "max_bytes": repr(mb), "chunk_prefix": repr(n)})
 
 
